@@ -2466,7 +2466,13 @@ impl<'a, R: FileManager> FrontendCtx<'a, R> {
                         PropOrSpread::Spread(sp) => {
                             let spread_ty = self.typeof_expr(&sp.expr, as_const, file.clone())?;
 
-                            if let RuntypeKind::Object { vs: spread_vs, .. } = spread_ty.kind {
+                            // (a spread value with an index signature cannot be merged into the
+                            // property list built here: refuse it rather than drop the signature)
+                            if let RuntypeKind::Object {
+                                vs: spread_vs,
+                                indexed_properties: None,
+                            } = spread_ty.kind
+                            {
                                 for (k, v) in spread_vs {
                                     vs.push((k, v));
                                 }
